@@ -14,7 +14,7 @@ CHECKS = {
         "cell order and every row is a root-to-leaf path of the tree) and c01_total (the run does succeed). Tie: (i) real run_type_assignment with "
         "_run_type_assignment replaced by a recorded-choice oracle on every tree shape up to 4 levels / 4-6 leaves + random trees vs the extracted model; "
         "(ii) real run_mapping pipeline runs (flatten, drop_level, chunk sizes, 1-4 workers) with spec_routing evaluated on the observed records.",
-   note="Chunk dispatch/gather and re_order_blob are exercised by the pipeline runs but not yet covered by a theorem (C04); HDF5/anndata reading of obs "
+   note="That consecutive chunks of every size tile the query is c05_chunks_cover, the completion of dropped / flattened levels is c17_backfilled_path; HDF5/anndata reading of obs "
         "and the JSON writer are not modelled. F1 (single top node -> KeyError) was repaired in /repo (df833cb).",
    technique=TECH, ref="DESIGN.md section 7 C01"),
  'C02': dict(
